@@ -41,6 +41,30 @@ def is_out_param_kernel(P, f):
     return P.is_jit(f)
 
 
+def _problems(P, E, f, p, depth=0):
+    """Stores into parameter p of f that are not covered by the constructor / cache / enumerated exceptions."""
+    if (f.qualname, p) in ALLOWED_DEEP or depth > 6:
+        return []
+    if is_out_param_kernel(P, f) and (p != 'self' or f.name == '__init__'):
+        return []
+    problems = []
+    for node, kind in E.direct.get(f.key, {}).get(p, []):
+        if kind.startswith('attr:'):
+            attr = kind[5:]
+            if p == 'self' and f.name in ('__init__', '__setstate__'):
+                continue
+            if f.qualname in CACHE_ATTR_WRITERS.get(attr, ()):
+                continue
+            problems.append((node, f're-binds attribute `{attr}` of `{p}`'))
+        else:
+            problems.append((node, f'stores into `{p}` (or a view of it)'))
+    for call, g, gp in E.via.get(f.key, {}).get(p, []):
+        if not _problems(P, E, g, gp, depth + 1):
+            continue            # the callee's own stores are all of the allowed kinds (cache building, enumerated exceptions)
+        problems.append((call, f'hands `{p}` (or a view of it) to {g.qualname}, which stores into its parameter `{gp}`'))
+    return problems
+
+
 def who_mutates(P, R, rule, funcs=None, note=''):
     """For every function in `funcs` (default: all) and each parameter it stores into: allowed only for
     constructors re-binding their own attributes, whitelisted cache attributes, enumerated exceptions, and
@@ -62,19 +86,7 @@ def who_mutates(P, R, rule, funcs=None, note=''):
             if (f.qualname, p) in ALLOWED_DEEP:
                 R.ok(rule, f, None, f'enumerated exception: {ALLOWED_DEEP[(f.qualname, p)]}', construct=f'{f.qualname}({p})', nontrivial=False)
                 continue
-            problems = []
-            for node, kind in direct:
-                if kind.startswith('attr:'):
-                    attr = kind[5:]
-                    if p == 'self' and f.name in ('__init__', '__setstate__'):
-                        continue
-                    if f.qualname in CACHE_ATTR_WRITERS.get(attr, ()):
-                        continue
-                    problems.append((node, f're-binds attribute `{attr}` of `{p}`'))
-                else:
-                    problems.append((node, f'stores into `{p}` (or a view of it)'))
-            for call, g, gp in via:
-                problems.append((call, f'hands `{p}` (or a view of it) to {g.qualname}, which stores into its parameter `{gp}`'))
+            problems = _problems(P, E, f, p)
             if not problems:
                 R.ok(rule, f, None, f'`{p}`: only constructor/cache attribute re-binding', construct=f'{f.qualname}({p})')
             for node, why in problems:
